@@ -63,6 +63,14 @@ dst = os.path.join("/verif/seeded", "%s-%s" % (prop, name))
 os.makedirs(dst, exist_ok=True)
 shutil.copy(patch, os.path.join(dst, "patch.diff")); shutil.copy(demo, os.path.join(dst, "demo_test.go"))
 res["what_it_needs"] = meta_txt.strip()
+try:
+    old = json.load(open(os.path.join(dst, "meta.json")))
+    for k in ("first_attempt", "breaks_property"):
+        if k in old:
+            res[k] = old[k]
+except Exception:
+    pass
+res.setdefault("breaks_property", prop)
 res["ran"] = "scratch worktree: suite + demo with/without patch; then VERIF_REPO=<scratch worktree with the change> ./vcheck run %s --tier %s; worktree removed afterwards" % (" ".join([prop] + extra), tier)
 json.dump(res, open(os.path.join(dst, "meta.json"), "w"), indent=1)
 print(json.dumps({k: v for k, v in res.items() if k != "what_it_needs"}, indent=1))
